@@ -83,6 +83,10 @@ def correspond(ctx):
                 if got >= npts: break
                 p = tuple(S.f_round(ty, v) for v in S.fam_params(fam, rng, ty))
                 if not S.in_envelope(fam, ty, p): continue
+                if fam in ("normal", "lognormal") and got == 0:
+                    p = (p[0], 0.0)               # zero scale is accepted by the constructor: same words must be consumed
+                if fam == "normal" and got == 1:
+                    p = (p[0], -0.0)
                 if fam == "invgauss":
                     # the scale enters inside a cancelling expression: the relation is exact only for c = 2^k
                     c = 2.0 ** (rng.below(21) - 10); p = (p[0], p[1], c); tp = (p[0] * c, p[1] * c)
